@@ -37,6 +37,7 @@ def safe_opts(rng):
 def main(tier):
     c = vlib.Check("C02", tier)
     c.phase_proofs()
+    c.phase_proofs("HtmlBytes")   # byte-level forms via the lexer round trip (Proofs/HtmlLexRt.v)
     n = 2500 if tier == "quick" else 25000
     recs = htmlfam.tie_html(c, n, 400 if tier == "quick" else 4000, opts_fn=safe_opts)
     if recs is None:
